@@ -760,6 +760,7 @@ func extractC12() *lean {
 	l.def("validateZipsMappingsAndCredentialsByIndex", "Bool", fmt.Sprint(validateZip), validateZip)
 	l.def("mappingPathFormats", "List String", leanStrList(fmtPaths), fmtPaths)
 	l.def("singleMappingPaths", "List String", leanStrList(rewrite), rewrite)
+	c12ConsumerFacts(l)
 	return l
 }
 
